@@ -178,7 +178,9 @@ WORDS = ["a", ",", "``", "<&\"'>", "ä", "#1", "b-c", "(", "x]y"]
 WORDS_BR = WORDS + ["1\u00a0000"]      # a token with a no-break space: not whitespace for the bracket lexer
 POSS = ["P1", "P2", "$,", "P3"]
 EDGES = ["--", "HD", "SB", "OA", "MO", "NK", "AC", "OC", "PD", "CJ"]
-S2 = ("N", "VROOT", "--", (("N", "NP", "OA", (("T", "x", "Q1", "HD", "lx", "m1", 1), ("T", "z", "Q3", "NK", "lz", "m3", 3))),
+# the fixed second sentence carries two words that look like structure in the export format: '#' + digits + more
+# (not a node reference) and '%%...' (a comment marker only at the start of a line outside sentences)
+S2 = ("N", "VROOT", "--", (("N", "NP", "OA", (("T", "#100days", "Q1", "HD", "lx", "m1", 1), ("T", "%%EOF", "Q3", "NK", "lz", "m3", 3))),
                            ("T", "y", "Q2", "MO", "ly", "m2", 2)))
 S2C = ("N", "VROOT", "--", (("N", "NP", "OA", (("T", "x", "Q1", "HD", "lx", "m1", 1), ("T", "y", "Q2", "NK", "ly", "m2", 2))),
                             ("T", "z", "Q3", "MO", "lz", "m3", 3)))
